@@ -124,7 +124,11 @@ def run(R, env):
             rt = agg_field(t, "routes")
             goodr = False
             if rt is not None and rt[0] == "call" and rt[1].endswith("Iterator::collect") and rt[2][0][0] == "call" and rt[2][0][1].endswith("Iterator::map") and routes(rt[2][0][2][0]):
-                res = closure_result(prog, rt[2][0][2][1], params={2: ("hop",)})
+                f_ = rt[2][0][2][1]
+                res = closure_result(prog, f_, params={2: ("hop",)})
+                if f_[0] == "fn" and fn_item_body(prog, f_) is not None:
+                    # `.map(SwapAmountInRoute::from)` with a local `impl From<&SwapRoute>`
+                    res = Terms(fn_item_body(prog, f_), params={1: ("hop",)}).return_term()
                 goodr = res is not None and res[0] == "agg" and res[1].endswith(S["route"]) and agg_field(res, "pool_id") == ("field", ("hop",), "pool_id") and agg_field(res, S["hop_field"]) == ("field", ("hop",), S["hop_field"]) and len(res[3]) == 2
             elif rt is not None:
                 # loop form: every hop aggregate that flows into the vector is built, field by field,
